@@ -85,7 +85,12 @@ PROPS["C01"] = {
     "theorems": T(M01, "C01_roundtrip", "C01_empty_stream") + T(W, "C04_writer_blocks") + T(R, "C05_reader_refines_spec") + T(K, "C10_stream_layout")
                 + T(M13, "C13_sequence", "C13_sequence_mode_byte", "C13_sequence_small") + T(M12, "C12_none")
                 + T(MJOBS, "C05_bwt_chunks_covered", "C05_jobs_partition")
-                + T(MNONE, "C01_codec_NONE", "C01_codec_NONE_task", "C01_codec_NONE_bits", "C01_stream_image_layers", "C01_stream_image_parses", "C01_stream_image_fast", "C01_none_end_to_end") + T(MCT, "io_consts", "kanzi_consts", "consts_nonvacuous") + T(MBO, "writeHeader_layout", "readHeader_layout", "frame_layout", "block_prologue_layout"),
+                + T(MNONE, "C01_codec_NONE", "C01_codec_NONE_task", "C01_codec_NONE_bits", "C01_stream_image_layers", "C01_stream_image_parses", "C01_stream_image_fast", "C01_none_end_to_end")
+                + T("Kanzi.Properties.C01_blockgen", "C01_block_roundtrip", "C01_laws_spelled_out", "C01_encode_errors", "C01_codec_small_none", "C01_codec_small_ans0", "C01_small_transforms", "C01_codec_of_header",
+                    "C01_small_dst_independent", "C01_gen_none_encode", "C01_gen_none_decode", "C01_gen_none_image", "C01_stream_image_gen", "C01_stream_image_small_none", "C01_ans0_block_size",
+                    "C01_stream_image_small_ans0", "C01_stream_image_gen_fast", "C01_gen_end_to_end", "C01_gen_end_to_end_ans0")
+                + T("Kanzi.Properties.C01_blockgen", "C01_stream_image_small_ans0_partial", "C01_gen_end_to_end_ans0_partial", partial=True)
+                + T(MCT, "io_consts", "kanzi_consts", "consts_nonvacuous") + T(MBO, "writeHeader_layout", "readHeader_layout", "frame_layout", "block_prologue_layout"),
     "streams": [SW, SR, JOBS, IMAGE, IMAGEGEN, RT, RTBIG],
     "level_text": "PROOF of the stream layer under assumption H_codec, plus search. Proved for all data, all partitions into Write calls, all job counts on both sides, all size-hint values, all read sizes: Write/Close succeed, the blocks are chunks(B,data), the framed stream parses back to them, and the reader returns exactly data then end-of-stream (C01_roundtrip = C04_writer_blocks + C10_stream_layout + C05_reader_refines_spec); the transform sequence with any pattern of declined stages and both skip-flag layouts round-trips (C13_sequence*); NONE entropy proved (C12_none); for the NONE/NONE codec H_codec is PROVED incl. the copy-block branch and the three checksum widths (C01_codec_NONE) and the whole chain is closed at the byte level: the bytes the Writer model emits, for any partition/jobs/hint, parse back through header, framing and block decode to the data (C01_none_end_to_end), and that byte image is byte-identical to the real Writer's output (image stream). The per-block codec is now modelled GENERICALLY (Model.BlockGen: copy-block branch, the skipBlocks entropy test with the real magic-number and first-order-entropy code, mode byte, skip flags in the nibble or the extra byte, length field, checksum, entropy coder, inverse sequence): C01_block_roundtrip reduces H_codec to per-stage and per-entropy-codec laws, and it is discharged with NO remaining hypothesis for every chain of up to 8 transforms over NONE/ZRLT/MTFT/RANK with entropy NONE or ANS0 (C01_codec_small_none, C01_codec_small_ans0, C01_codec_of_header), up to the byte image of the whole stream (C01_gen_end_to_end, C01_gen_end_to_end_ans0 for block sizes <= 128 KiB; above that PARTIAL under the decidable hypothesis that the ANS0 payload fits the reader's frame bound); the imagegen stream compares that image byte for byte with the real Writer and the real Reader's verdict on damaged images. ASSUMED (H_codec) for the other transforms/entropy codecs: decode(encode(block)) = block - searched on the real code (rt/rtbig: every transform and entropy, chains up to 8, all data shapes, block sizes, jobs, hints, headerless).",
     "level_note": BASE_NOTE + "H_codec for 17 transforms and 8 entropy codecs is an assumption covered only by the rt/rtbig search; buffer-size sufficiency of the decoder for chained expanding transforms is searched, not proved.",
